@@ -31,7 +31,8 @@ import yaml
 import core
 from core import f2b, b2f
 
-FLAGS_CURRENT = dict(inplace=True, jacketDz=True, coolingSolidPvap=True)
+# flags of the code BEFORE the repairs F9/F10/F11 (kept for replaying the old behaviour in the model by hand)
+FLAGS_BEFORE_REPAIRS = dict(inplace=True, jacketDz=True, coolingSolidPvap=True)
 FLAGS_REPAIRED = dict(inplace=False, jacketDz=False, coolingSolidPvap=False)
 
 
